@@ -57,9 +57,14 @@ def main(argv=None):
 
     t0 = time.time()
     case_list = list(mod.cases(args.tier, seed))
+    # depth of the thorough tier: ROUNDS further generator passes with derived seeds (fresh random parameters, data and
+    # histories on top of whatever the check enumerates exhaustively); VERIF_ROUNDS overrides
+    rounds = int(os.environ.get("VERIF_ROUNDS", getattr(mod, "ROUNDS", {}).get(args.tier, 1)))
+    for r in range(1, rounds):
+        case_list += [c for c in mod.cases(args.tier, seed + 7919 * r) if not (isinstance(c, dict) and c.get("once"))]
     if args.max_cases:
         case_list = case_list[: args.max_cases]
-    budget = getattr(mod, "BUDGET", {"quick": 60, "thorough": 600})[args.tier]
+    budget = getattr(mod, "BUDGET", {"quick": 60, "thorough": 600})[args.tier] * max(1, rounds)
     jobs = max(1, min(args.jobs, len(case_list)))
     work = tempfile.mkdtemp(prefix="vt-%s-" % prop, dir="/dev/shm" if os.path.isdir("/dev/shm") else None)
     inconclusive = []
